@@ -206,6 +206,7 @@ type pairCfg struct {
 	Policy    string `json:"policy"`
 	Mode      int    `json:"mode"`
 	Bits      int    `json:"bits"` // RSA key size of both sides (0 for policy None)
+	SrvBits   int    `json:"server_bits,omitempty"` // RSA key size of the server side when it differs from the client's (0 = Bits)
 	ChunkSize uint32 `json:"chunk_size"`
 	ChannelID uint32 `json:"channel_id,omitempty"`
 	TokenID   uint32 `json:"token_id,omitempty"`
@@ -215,6 +216,9 @@ type pairCfg struct {
 }
 
 func (c pairCfg) String() string {
+	if c.SrvBits != 0 && c.SrvBits != c.Bits {
+		return fmt.Sprintf("%s/%s/client-rsa%d/server-rsa%d/chunk=%d", c.Policy, modeName(c.Mode), c.Bits, c.SrvBits, c.ChunkSize)
+	}
 	return fmt.Sprintf("%s/%s/rsa%d/chunk=%d", c.Policy, modeName(c.Mode), c.Bits, c.ChunkSize)
 }
 
@@ -281,7 +285,11 @@ func newPair(cfg pairCfg) (p *pair, err error) {
 		cliCfg.RequestTimeout = cfg.ReqTimeout
 	}
 	if cfg.Policy != "None" {
-		a, b := keys.MustLoad(cfg.Bits, "a"), keys.MustLoad(cfg.Bits, "b")
+		sb := cfg.SrvBits
+		if sb == 0 {
+			sb = cfg.Bits
+		}
+		a, b := keys.MustLoad(cfg.Bits, "a"), keys.MustLoad(sb, "b")
 		cliCfg.Certificate, cliCfg.LocalKey = a.CertDER, a.Key
 		cliCfg.RemoteCertificate, cliCfg.Thumbprint = b.CertDER, b.Thumbprint()
 		srvCfg.Certificate, srvCfg.LocalKey = b.CertDER, b.Key
